@@ -138,12 +138,13 @@ func G%[2]s(n int) int {
 	return n
 }
 
-func H%[2]s(b bool) int {
-	//lint:ignore S1002 this directive is part of the test
-	if b == false {
-		return 1
+func H%[2]s(ch chan int) int {
+	n := 0
+	//lint:ignore S1005 this directive is part of the test; no other S1005 problem exists
+	for _ = range ch {
+		n++
 	}
-	return 0
+	return n
 }
 
 func unused%[2]s() {}
@@ -446,6 +447,8 @@ type c11E2E struct {
 	trees  map[string]string // variant+tree -> module directory
 	ntrees int
 	runs   atomic.Int64
+
+	sevOnce sync.Once
 }
 
 func (e *c11E2E) cacheDir(w int) string { return filepath.Join(e.dir, fmt.Sprintf("cache-%d", w)) }
@@ -524,7 +527,7 @@ func (e *c11E2E) base(variant string) bool {
 		}
 	}
 	// sanity of the generator: the module must contain what the case design relies on
-	need := map[string]bool{"SA4006": false, "SA4000": false, "S1000": false, "S1002": false, "ST1000": false, "ST1017": false, "U1000": false, "SA4009": false}
+	need := map[string]bool{"SA4006": false, "SA4000": false, "S1000": false, "S1002": false, "ST1000": false, "ST1017": false, "U1000": false, "SA4009": false, "S1005": false}
 	files := map[string]bool{}
 	ign := 0
 	for _, p := range e.pall[v] {
@@ -584,14 +587,33 @@ func c11IsPseudo(check string) bool {
 	return false
 }
 
-// runCase runs one case in the four formats and compares. worker selects the cache directory.
+// runCase evaluates one case; a disagreement is reported only if two further evaluations of
+// the same case reproduce it identically (otherwise: unstable, a harness/environment matter).
 func (e *c11E2E) runCase(c c11CaseB, worker int) {
-	env, res := e.env, e.env.res
 	c.Part = "B"
+	res := e.env.res
+	k, m := e.evalCase(c, worker, true)
+	if k == "" {
+		return
+	}
+	for i := 0; i < 2; i++ {
+		if k2, m2 := e.evalCase(c, worker, false); k2 != k || m2 != m {
+			res.Note("unstable: case %s disagreed once but not reproducibly (%q vs %q)", c.key(), clip([]byte(m)), clip([]byte(m2)))
+			res.NotExhaustive("a disagreement did not reproduce")
+			return
+		}
+	}
+	e.env.violate(k, m, c)
+}
+
+// evalCase runs one case in the four formats and compares; it returns the violation key and
+// message ("" = agreement). worker selects the cache directory; count: add to the counters.
+func (e *c11E2E) evalCase(c c11CaseB, worker int, count bool) (vkey, vmsg string) {
+	env, res := e.env, e.env.res
 	d, err := e.treeDir(c.Variant, c.Levels)
 	if err != nil {
 		res.NotExhaustive("cannot write a conf tree: " + err.Error())
-		return
+		return "", ""
 	}
 	// reference
 	var want []c11Problem
@@ -615,7 +637,7 @@ func (e *c11E2E) runCase(c c11CaseB, worker int) {
 		if i < 0 {
 			res.Note("P_all contains a problem of an unregistered check %q", p.Check)
 			res.NotExhaustive("unexpected category in P_all")
-			return
+			return "", ""
 		}
 		if allowed[c11LevelsOf(p.File)].has(i) {
 			want = append(want, p)
@@ -657,7 +679,7 @@ func (e *c11E2E) runCase(c c11CaseB, worker int) {
 		if r.err != nil {
 			res.Note("cannot run the binary: %v", r.err)
 			res.NotExhaustive("binary could not be started")
-			return
+			return "", ""
 		}
 		var ps []c11Problem
 		var perr error
@@ -728,7 +750,9 @@ func (e *c11E2E) runCase(c c11CaseB, worker int) {
 				}
 				if isIgnored {
 					if p.sev != "ignored" {
-						res.Unassert("JSON severity of an ignored problem shown by -show-ignored is \"" + p.sev + "\" when its check is outside the -fail set (formatters.md documents \"ignored\"); outside the C11 statement")
+						e.sevOnce.Do(func() {
+							res.Unassert("JSON severity of an ignored problem shown by -show-ignored is \"" + p.sev + "\" when its check is outside the -fail set (formatters.md documents \"ignored\"); outside the C11 statement")
+						})
 					}
 					continue
 				}
@@ -750,6 +774,16 @@ func (e *c11E2E) runCase(c c11CaseB, worker int) {
 			bad("formats disagree: only in text %q, only in %s %q", x, f, y)
 		}
 	}
+	if len(firstMsg) > 0 {
+		vkey = c.key()
+		vmsg = fmt.Sprintf("real binary vs reference, module at three levels, root=%s dir=%s subdir=%s, args %q:\n%s",
+			c.Levels[0], c.Levels[1], c.Levels[2], c11Args(c, "<fmt>"), strings.Join(firstMsg, "\n"))
+	} else if exitMismatch && exitMismatchOnlyShowIgnored {
+		vkey, vmsg = c11ShowIgnoredKey, c11ShowIgnoredMsg
+	}
+	if !count {
+		return vkey, vmsg
+	}
 	res.Eval(1)
 	atomic.AddInt64(&res.States, 1)
 	atomic.AddInt64(&res.Validated, 1)
@@ -763,12 +797,7 @@ func (e *c11E2E) runCase(c c11CaseB, worker int) {
 	if len(want) == 0 {
 		res.Count("B_cases_with_no_problem_expected", 1)
 	}
-	if len(firstMsg) > 0 {
-		env.violate(c.key(), fmt.Sprintf("real binary vs reference, module at three levels, root=%s dir=%s subdir=%s, args %q:\n%s",
-			c.Levels[0], c.Levels[1], c.Levels[2], c11Args(c, "<fmt>"), strings.Join(firstMsg, "\n")), c)
-	} else if exitMismatch && exitMismatchOnlyShowIgnored {
-		env.violate(c11ShowIgnoredKey, fmt.Sprintf("with -show-ignored a problem that is ignored by a //lint:ignore directive still makes the run exit 1 when its check is in the -fail set (args %q: the only problems in the -fail set are ignored ones); the statement counts non-ignored problems only", c11Args(c, "text")), c)
-	}
+	return vkey, vmsg
 }
 
 func btoi(b bool) int {
@@ -780,14 +809,22 @@ func btoi(b bool) int {
 
 func c11L(s ...string) c11Level { return c11Level{Set: true, List: s} }
 
-// c11CasesB is the covering set: all trees over a small set of lists x all -checks lists of a
-// small set, -fail rotating so that every (-checks, -fail) and (level list, -fail) pair occurs.
+// c11CasesB is the covering set. Tree shape = which of the three levels carry a conf file.
+//   - every tree shape x every -checks list (lists on the set levels rotating);
+//   - trees over a small set of lists (thorough: all 125 trees x all 8 -checks lists; quick: every
+//     third of the 64 trees with a rotating -checks list);
+//   - -fail rotates so that every (-checks, -fail) pair occurs;
+//   - a few -show-ignored runs, runs with a malformed staticcheck.conf in d/, runs with a
+//     malformed //lint:ignore directive in d/bad.go.
 func c11CasesB() []c11CaseB {
-	levelLists := []c11Level{
-		{},
+	none := c11Level{}
+	lists := []c11Level{
 		c11L("inherit", "-S*"),
 		c11L("SA*", "st1000"),
 		c11L("all", "-sa4006", "XX999"),
+	}
+	extra := []c11Level{ // used on the shape x flag cases only
+		c11L("-SA4006", "inherit", "ST1000"),
 	}
 	flags := []c11Level{
 		{},
@@ -797,16 +834,11 @@ func c11CasesB() []c11CaseB {
 		c11L("inherit", "ST1000", "-U1000"),
 	}
 	if vx.Thorough() {
-		levelLists = append(levelLists,
-			c11L("-SA4006", "inherit", "ST1000"),
-			c11L("S1*", "U1000"),
-			c11L(),
-		)
+		lists = append(lists, c11L("-SA4006", "inherit", "ST1000"))
+		extra = []c11Level{c11L("S1*", "U1000"), c11L(), c11L("inherit", "inherit", "-ST*")}
 		flags = append(flags,
 			c11L("inherit"),
 			c11L("*", "-S*"),
-			c11L("s*"),
-			c11L("XX999"),
 			c11L("-ST*", "inherit", "sa4006"),
 		)
 	}
@@ -820,39 +852,78 @@ func c11CasesB() []c11CaseB {
 		c11L("s1*", "XX999"),
 	}
 	var out []c11CaseB
+	seen := map[string]bool{}
+	n := 0
+	add := func(c c11CaseB) {
+		if c.Fail.List == nil && !c.Fail.Set && c.Variant == "plain" && !c.ShowIgnored {
+			c.Fail = fails[n%len(fails)]
+		}
+		if k := c.key(); !seen[k] {
+			seen[k] = true
+			out = append(out, c)
+			n++
+		}
+	}
+	// shapes x flags
+	pool := append(append([]c11Level{}, lists...), extra...)
+	for shape := 0; shape < 8; shape++ {
+		for fi, f := range flags {
+			var lv [3]c11Level
+			for i := 0; i < 3; i++ {
+				if shape&(1<<i) != 0 {
+					lv[i] = pool[(shape+fi+2*i)%len(pool)]
+				}
+			}
+			add(c11CaseB{Variant: "plain", Levels: lv, Checks: f})
+		}
+	}
+	// trees over the small list set
+	choices := append([]c11Level{none}, lists...)
 	ti := 0
-	for _, r := range levelLists {
-		for _, d := range levelLists {
-			for _, s := range levelLists {
-				for fi, f := range flags {
-					out = append(out, c11CaseB{Variant: "plain", Levels: [3]c11Level{r, d, s}, Checks: f, Fail: fails[(ti+fi)%len(fails)]})
-				}
+	for _, r := range choices {
+		for _, d := range choices {
+			for _, s := range choices {
 				ti++
-			}
-		}
-	}
-	// -show-ignored
-	for i, lv := range [][3]c11Level{{}, {levelLists[1]}, {levelLists[2], {}, levelLists[1]}, {{}, levelLists[3], {}}} {
-		for j, f := range []c11Level{{}, c11L("S1002"), c11L("inherit", "-S*")} {
-			out = append(out, c11CaseB{Variant: "plain", Levels: lv, Checks: f, Fail: fails[(i+2*j)%3], ShowIgnored: true})
-		}
-	}
-	// malformed staticcheck.conf in d/
-	for _, r := range levelLists[:3] {
-		for _, s := range levelLists[:2] {
-			for _, f := range []c11Level{{}, c11L("SA4006", "st1000"), c11L("XX999")} {
-				for _, fl := range fails[:2] {
-					out = append(out, c11CaseB{Variant: "badconf", Levels: [3]c11Level{r, {}, s}, Checks: f, Fail: fl})
+				if vx.Thorough() {
+					for _, f := range flags {
+						add(c11CaseB{Variant: "plain", Levels: [3]c11Level{r, d, s}, Checks: f})
+					}
+				} else if ti%3 == 1 {
+					add(c11CaseB{Variant: "plain", Levels: [3]c11Level{r, d, s}, Checks: flags[ti%len(flags)]})
 				}
 			}
+		}
+	}
+	// -show-ignored; S1005 only occurs as an ignored problem, so -fail=S1005 isolates the question
+	// whether an ignored problem can fail the run
+	showTrees := [][3]c11Level{{}, {lists[0]}, {lists[1], none, lists[0]}}
+	showFlags := []c11Level{{}, c11L("S1005")}
+	showFails := []c11Level{c11L("S1005"), {}, c11L("SA*")}
+	if vx.Thorough() {
+		showTrees = append(showTrees, [3]c11Level{none, lists[2], none})
+		showFlags = append(showFlags, c11L("inherit", "-S*"))
+	}
+	for i, lv := range showTrees {
+		for j, f := range showFlags {
+			add(c11CaseB{Variant: "plain", Levels: lv, Checks: f, Fail: showFails[(i+j)%3], ShowIgnored: true})
+		}
+	}
+	// malformed staticcheck.conf in d/ ; -fail="" shows that the config problem alone fails the run
+	for i, r := range choices[:3] {
+		for j, f := range []c11Level{{}, c11L("SA4006", "st1000"), c11L("XX999")} {
+			if !vx.Thorough() && (i+j)%2 == 1 {
+				continue
+			}
+			add(c11CaseB{Variant: "badconf", Levels: [3]c11Level{r, none, choices[(i+j)%2]}, Checks: f, Fail: fails[(i+j)%2]})
 		}
 	}
 	// malformed //lint:ignore directive in d/bad.go
-	for _, lv := range [][3]c11Level{{}, {{}, levelLists[2], {}}, {levelLists[3], levelLists[1], {}}} {
-		for _, f := range []c11Level{{}, c11L("XX999"), c11L("all")} {
-			for _, fl := range fails[:2] {
-				out = append(out, c11CaseB{Variant: "baddirective", Levels: lv, Checks: f, Fail: fl})
+	for i, lv := range [][3]c11Level{{}, {none, lists[1], none}, {lists[2], lists[0], none}} {
+		for j, f := range []c11Level{{}, c11L("XX999"), c11L("all")} {
+			if !vx.Thorough() && (i+j)%2 == 1 {
+				continue
 			}
+			add(c11CaseB{Variant: "baddirective", Levels: lv, Checks: f, Fail: fails[(i+j)%2]})
 		}
 	}
 	return out
@@ -900,6 +971,16 @@ func (env *c11Env) runPartB() {
 		return
 	}
 	cases := c11CasesB()
+	if f := os.Getenv("C11_B_FILTER"); f != "" { // development aid
+		var keep []c11CaseB
+		for _, c := range cases {
+			if strings.Contains(c.key(), f) {
+				keep = append(keep, c)
+			}
+		}
+		cases = keep
+		res.NotExhaustive("C11_B_FILTER set")
+	}
 	for _, c := range cases {
 		env.prepare(c.Levels[0].List, c.Levels[1].List, c.Levels[2].List, c.Checks.List, c.Fail.List)
 	}
@@ -947,6 +1028,7 @@ func (env *c11Env) runPartB() {
 	res.Count("B_module_copies_(distinct_conf_trees)", int64(e.ntrees))
 	if len(cases) > 0 {
 		c := cases[len(cases)/3]
+		c.Part = "B"
 		res.Sample(map[string]any{"part": "B", "case": c, "args": c11Args(c, "json")})
 	}
 }
